@@ -431,9 +431,10 @@ func (a *FA) classifyErr(v ssa.Value, at *ssa.BasicBlock, depth int) string {
 
 // Guard is a branch one of whose edges leads only to rejecting exits.
 type Guard struct {
-	If   *ssa.If
-	Cond *Expr // condition under which the function rejects
-	Ctx  []*Expr
+	If       *ssa.If
+	Cond     *Expr // condition under which the function rejects
+	Ctx      []*Expr
+	Imported bool // taken over from a callee whose failure this function propagates
 }
 
 func (g *Guard) String() string {
@@ -447,6 +448,17 @@ func (g *Guard) String() string {
 		s = "[" + strings.Join(cs, " && ") + "] ⇒ " + s
 	}
 	return s
+}
+
+// OwnGuards: the guards that are branches of this function's own (normalised) body.
+func (a *FA) OwnGuards() []*Guard {
+	var out []*Guard
+	for _, g := range a.Guards() {
+		if !g.Imported {
+			out = append(out, g)
+		}
+	}
+	return out
 }
 
 func (a *FA) Guards() []*Guard {
@@ -490,7 +502,7 @@ func (a *FA) Guards() []*Guard {
 				continue
 			}
 			for _, cg := range a.P.FA(im.Callee).Guards() {
-				ng := &Guard{If: im.If, Cond: substParams(cg.Cond, im.ArgExpr)}
+				ng := &Guard{If: im.If, Cond: substParams(cg.Cond, im.ArgExpr), Imported: true}
 				for _, cx := range cg.Ctx {
 					ng.Ctx = append(ng.Ctx, substParams(cx, im.ArgExpr))
 				}
